@@ -478,6 +478,7 @@ def cmd_replay(path):
 
 def main(argv):
     sys.path.insert(0, VERIF)
+    core.install_cleanup()
     if len(argv) < 2:
         print('usage: vc check <Cxx> [--tier quick|thorough] [--unit pat] [--inst pat] [-v] | vc replay <file> | vc list')
         return 3
